@@ -59,6 +59,7 @@ REQUIRED = [
     "mode:nonstandard",
     "client_builds_default_context",
     "highlevel_server_close_checked",
+    "second_read_after_truncation_error",
 ]
 EXHAUSTIVE = {"quick": False, "thorough": True}
 WATCHDOG = {"quick": 900, "thorough": 7200}
@@ -206,6 +207,16 @@ def async_session(version: str, std: bool, lib_server: bool, reader: str, k: int
             if isinstance(exc, (asyncio.CancelledError, vloop.Quiescent)):
                 raise
             obs["end"] = f"error:{type(exc).__name__}"
+        if obs["end"] != "lib-closes":
+            try:
+                if reader == "recv":
+                    obs["end_again"] = "data" if await t.recv(4096) else "clean"
+                else:
+                    obs["end_again"] = "data" if await t.recv_into(bytearray(4096)) else "clean"
+            except BaseException as exc:  # noqa: BLE001
+                if isinstance(exc, (asyncio.CancelledError, vloop.Quiescent)):
+                    raise
+                obs["end_again"] = f"error:{type(exc).__name__}"
         obs["plaintext"] = bytes(got)
         try:
             await t.aclose()
@@ -381,7 +392,10 @@ def sync_session(version: str, std: bool, lib_server: bool, reader: str, k: int 
                             from easynetwork.protocol import StreamProtocol
                             from easynetwork.serializers import StringLineSerializer
 
-                            cli = TCPNetworkClient(lsock, StreamProtocol(StringLineSerializer()), server_hostname="localhost", ssl_handshake_timeout=5, ssl_shutdown_timeout=2, **_client_ssl_kwargs(ctx, std))
+                            from easynetwork.protocol import BufferedStreamProtocol
+
+                            ser = StringLineSerializer()
+                            cli = TCPNetworkClient(lsock, BufferedStreamProtocol(ser) if reader == "recv_into" else StreamProtocol(ser), server_hostname="localhost", ssl_handshake_timeout=5, ssl_shutdown_timeout=2, **_client_ssl_kwargs(ctx, std))
                         else:
                             t = SSLStreamTransport(lsock, ctx, retry_interval=1.0, server_side=lib_server, server_hostname=None if lib_server else "localhost", standard_compatible=std, handshake_timeout=5, shutdown_timeout=2, selector_factory=vselect.selector_factory(world))
                         obs["wrap"] = "ok"
@@ -414,6 +428,20 @@ def sync_session(version: str, std: bool, lib_server: bool, reader: str, k: int 
                             obs["end"] = f"error:{type(exc).__name__}"
                             if client and isinstance(exc, ConnectionAbortedError):
                                 obs["end"] = _client_end(exc)
+                        if obs["end"] != "lib-closes":
+                            # the reader asks once more: what it is told must not change from "truncated" to "ended cleanly"
+                            try:
+                                if client:
+                                    cli.recv_packet(timeout=5)
+                                    obs["end_again"] = "data"
+                                elif reader == "recv":
+                                    obs["end_again"] = "data" if t.recv(4096, 5) else "clean"
+                                else:
+                                    obs["end_again"] = "data" if t.recv_into(bytearray(4096), 5) else "clean"
+                            except (Exception, _Stall) as exc:  # noqa: BLE001
+                                obs["end_again"] = f"error:{type(exc).__name__}"
+                                if client and isinstance(exc, ConnectionAbortedError):
+                                    obs["end_again"] = _client_end(exc)
                         obs["plaintext"] = bytes(got)
                         try:
                             (cli if client else t).close()
@@ -497,9 +525,9 @@ def _client_ssl_kwargs(ctx, std: bool) -> dict:
     return {"ssl": ctx, "ssl_standard_compatible": std}
 
 
-def async_client_session(version: str, std: bool, k: int | None) -> dict:
+def async_client_session(version: str, std: bool, k: int | None, reader: str = "recv") -> dict:
     from easynetwork.clients.async_tcp import AsyncTCPNetworkClient
-    from easynetwork.protocol import StreamProtocol
+    from easynetwork.protocol import BufferedStreamProtocol, StreamProtocol
     from easynetwork.serializers import StringLineSerializer
 
     obs: dict[str, Any] = {"plaintext": b"", "end": None, "wrap": None}
@@ -525,7 +553,8 @@ def async_client_session(version: str, std: bool, k: int | None) -> dict:
 
         pt = asyncio.ensure_future(peer_task())
         backend = AsyncIOBackend()
-        cli = AsyncTCPNetworkClient(lsock, StreamProtocol(StringLineSerializer()), backend, server_hostname="localhost", ssl_handshake_timeout=5, ssl_shutdown_timeout=2, **_client_ssl_kwargs(tlspeer.client_context(version), std))
+        ser = StringLineSerializer()
+        cli = AsyncTCPNetworkClient(lsock, BufferedStreamProtocol(ser) if reader == "recv_into" else StreamProtocol(ser), backend, server_hostname="localhost", ssl_handshake_timeout=5, ssl_shutdown_timeout=2, **_client_ssl_kwargs(tlspeer.client_context(version), std))
         try:
             await cli.wait_connected()
             obs["wrap"] = "ok"
@@ -546,6 +575,15 @@ def async_client_session(version: str, std: bool, k: int | None) -> dict:
                 if isinstance(exc, (asyncio.CancelledError, vloop.Quiescent)):
                     raise
                 obs["end"] = f"error:{type(exc).__name__}"
+            try:
+                await cli.recv_packet()
+                obs["end_again"] = "data"
+            except ConnectionAbortedError as exc:
+                obs["end_again"] = _client_end(exc)
+            except BaseException as exc:  # noqa: BLE001
+                if isinstance(exc, (asyncio.CancelledError, vloop.Quiescent)):
+                    raise
+                obs["end_again"] = f"error:{type(exc).__name__}"
             obs["plaintext"] = bytes(got)
         try:
             await cli.aclose()
@@ -636,6 +674,9 @@ def highlevel_server_close(version: str, mode: str) -> dict:
 # ------------------------------------------------------------------------------------------ oracle
 
 
+_SEEN_AGAIN: dict = {}
+
+
 def decide(kind: str, std: bool, k: int | None, ref: dict, obs: dict, client: bool) -> str | None:
     total = ref["total"]
     marks = ref["marks"]
@@ -670,11 +711,15 @@ def decide(kind: str, std: bool, k: int | None, ref: dict, obs: dict, client: bo
             return f"standard-compatible mode: cut at {k}/{total} (before the end of the close_notify) reported as a clean end-of-stream"
         if not str(obs["end"]).startswith("error:"):
             return f"unexpected end {obs['end']}"
+        if obs.get("end_again") in ("clean", "data"):
+            return f"standard-compatible mode: cut at {k}/{total}: the first read reported {obs['end']}, the next read on the same connection reported a clean end-of-stream" if obs["end_again"] == "clean" else f"a read after the truncation error returned data (cut at {k})"
     else:
         if obs["end"] != "clean":
             return f"non standard-compatible mode: cut at {k}/{total} after the handshake reported as {obs['end']} instead of end-of-stream"
     if not obs.get("wrapped_closed"):
         return "the wrapped transport is not closed after close()"
+    if "end_again" in obs:
+        _SEEN_AGAIN[(std, obs["end"].split("<")[0], str(obs["end_again"]).split("<")[0])] = _SEEN_AGAIN.get((std, obs["end"].split("<")[0], str(obs["end_again"]).split("<")[0]), 0) + 1
     return None
 
 
@@ -749,8 +794,8 @@ def _run(kind, version, std, lib_server, reader, k, order="peer-first"):
     if kind == "sync-tls":
         return sync_session(version, std, lib_server, reader, k, order)
     if kind == "sync-tcp-client":
-        return sync_session(version, std, False, "recv", k, order, client=True)
-    return async_client_session(version, std, k)
+        return sync_session(version, std, False, reader, k, order, client=True)
+    return async_client_session(version, std, k, reader)
 
 
 def run_shard(params: dict, ctx) -> None:
@@ -849,6 +894,11 @@ def run_shard(params: dict, ctx) -> None:
         if why:
             cat = "clean-eof-on-truncation" if "clean end-of-stream" in why else "nonstandard-not-eof" if "non standard" in why else "handshake" if "handshake" in why else "deadlock" if "deadlock" in why else "plaintext" if "plaintext" in why else "other"
             ctx.violation(f"{cat}:{kind}", f"[{kind} TLS{version} std={std} lib_server={lib_server} {reader}] {why}", {**params, "k": k, "reader": reader, "obs": {x: str(y)[:120] for x, y in obs.items() if x in ("wrap", "end", "aclose", "plaintext", "peer_end", "deadlock")}})
+    for key, n in _SEEN_AGAIN.items():
+        ctx.count(f"second_read[std={key[0]}]:{key[1]}->{key[2]}", n)
+        if key[0] and key[1].startswith("error"):
+            ctx.count("second_read_after_truncation_error", n)
+    _SEEN_AGAIN.clear()
     ctx.sample({"kind": kind, "tls": version, "standard_compatible": std, "library_is_server": lib_server, "ciphertext_bytes": ref["total"], "marks": ref["marks"], "offsets_tried": len(offs), "first_offsets": offs[:10]})
     ctx.notes.setdefault("exhaustive_note", "thorough tier enumerates every byte offset for the two transports; TCP clients use a stride")
 
